@@ -167,8 +167,12 @@ def schedules(ctx):
         (10 * ms, [(0, 100 * ms), (1, 0), (2, 0)]),                               # absent is ignored, then error
         (1, [(0, 7), (2, 0), (0, 7)]),                                            # 1 ns window, repeated timestamp across an error
     ]
+    import os
+    if os.environ.get("VK_C12_MULTI"):
+        # experiment knob (never set by a registered command): two samples queued inside the window
+        base = [(10 * ms, [(0, 100 * ms), (0, 104 * ms)])]
     rng = ctx.rng
-    for _ in range(2 if ctx.quick else 8):
+    for _ in range(0 if os.environ.get("VK_C12_MULTI") else (2 if ctx.quick else 8)):
         w = rng.choice([1, 2, 5, 10, 50]) * ms
         t = 100 * ms
         evs = []
